@@ -70,3 +70,21 @@ Proof. unfold la_admits. apply beq_eq. Qed.
 (* the file is removed when the middleware is destroyed *)
 Theorem removed_on_destroy s : la_alive s = true -> la_file (fst (la_step s LDestroy)) = None.
 Proof. intros Ha. cbn [la_step]. rewrite Ha. reflexivity. Qed.
+
+(* whatever follows the token in the header value - a NUL byte and more, a blank, anything - the request is refused; and so is
+   whatever precedes it *)
+Theorem token_with_suffix_refused s hdrs suffix :
+  suffix <> [] -> hm_value (la_hname s) hdrs = TOKEN ++ suffix -> la_admits s hdrs = false.
+Proof.
+  intros Hne Hv. destruct (la_admits s hdrs) eqn:E; [|reflexivity].
+  apply admit_iff_token in E. rewrite Hv in E.
+  exfalso. apply Hne. rewrite <- (app_nil_r TOKEN) in E at 2. apply app_inv_head in E. exact E.
+Qed.
+
+Theorem token_with_prefix_refused s hdrs prefix :
+  prefix <> [] -> hm_value (la_hname s) hdrs = prefix ++ TOKEN -> la_admits s hdrs = false.
+Proof.
+  intros Hne Hv. destruct (la_admits s hdrs) eqn:E; [|reflexivity].
+  apply admit_iff_token in E. rewrite Hv in E.
+  exfalso. apply Hne. rewrite <- (app_nil_l TOKEN) in E at 2. apply app_inv_tail in E. exact E.
+Qed.
